@@ -138,7 +138,7 @@ static void run_pair(Reporter& R, const Args& A_, const std::string& form, uint6
   using VB = Vec<B>;
   constexpr size_t NA = VA::n, NB = VB::n;
   const std::string key = "C11|" + form + "|" + Num<T>::name;
-  const long long K = A_.n("pairs", A_.thorough() ? 40000 : 1200);
+  const long long K = A_.n("pairs", A_.thorough() ? 40000 : 4000);
   Rng rng(mix(mix(A_.seed, 0xC11), mix(pindex, hash_str(form))));
   R.crumb(key);
   for (long long i = 0; i < K; ++i) {
